@@ -313,7 +313,9 @@ def run_judge(
     for ja in jobs_args:
         path, rc, out, err, dt = _judge_batch(ja)
         if 'Model checking completed. No error has been found.' not in out:
-            tail = '\n'.join(out.strip().split('\n')[-30:])
+            lines = out.strip().split('\n')
+            key = [l for l in lines if l.startswith(('Error:', 'Reason', 'Attempted', 'The exception', 'Failed'))][:8]
+            tail = '\n'.join(key + ['...'] + lines[-12:])
             raise MachineryError(
                 f'trace validation did not complete for {path} (rc={rc}):\n{tail}\n{err[-1500:]}'
             )
